@@ -59,7 +59,20 @@ func (e *Exec) call(in ssa.Instruction, c *ssa.CallCommon) Val {
 		e.curState = MergeStates(sts, conds)
 		return e.mergeRet(rets, conds, c.Signature().Results())
 	}
-	// unknown function value
+	// unknown function value: when its type can only be inhabited by functions of a repository package, havoc what
+	// those may write
+	if fs := e.P.candidatesBySignature(c.Signature()); len(fs) > 0 {
+		ms := map[string]bool{}
+		var names []string
+		for _, f := range fs {
+			names = append(names, FuncKey(f))
+			for n := range e.P.FuncModset(f) {
+				ms[n] = true
+			}
+		}
+		e.root().Assumed["call through a function value of an unexported-parameter type resolves to one of: "+strings.Join(names, ", ")] = true
+		return e.havocByModset(ms, c.Signature().Results(), "fnval")
+	}
 	e.root().Havocked["call through function value at "+e.posOf(in)] = true
 	return e.havocCall(c.Signature().Results(), "fnval")
 }
@@ -80,6 +93,29 @@ func (e *Exec) mergeRet(rets []Val, conds []*Term, res *types.Tuple) Val {
 		out[i] = e.mergeVals(vs, conds, res.At(i).Type())
 	}
 	return out
+}
+
+// antlrObject allocates a fresh object of an ANTLR type whose embedded base objects (anonymous pointer fields) are
+// themselves fresh non-nil objects (A-ANTLR-RT: constructors build complete recognizers / streams).
+func (e *Exec) antlrObject(t types.Type, depth int) *Term {
+	r := e.alloc()
+	e.assume(Implies(e.guard(), Eq(RType(r), tagOf(t))))
+	st, ok := t.Underlying().(*types.Struct)
+	if !ok || depth > 3 {
+		return r
+	}
+	for i := 0; i < st.NumFields(); i++ {
+		f := st.Field(i)
+		if !f.Embedded() {
+			continue
+		}
+		if p, ok := f.Type().Underlying().(*types.Pointer); ok {
+			inner := e.antlrObject(p.Elem(), depth+1)
+			comp := e.curState.Get(fieldComp(t, i), ArraySort(SInt, sortOf(f.Type())))
+			e.assume(Implies(e.guard(), Eq(Select(comp, r), inner)))
+		}
+	}
+	return r
 }
 
 // havocCall forgets the whole heap and returns unconstrained results.
@@ -252,6 +288,18 @@ func (e *Exec) callFunc(f *ssa.Function, bindings []Val, c *ssa.CallCommon, args
 	if ct := e.P.ContractOf(f); ct != nil && !ct.Flags["inline"] {
 		return e.contractCall(f, ct, c, args)
 	}
+	if antlrConstructor(f) {
+		// A-ANTLR-RT: NewX(...) of the ANTLR runtime / generated parser returns a fresh non-nil object and touches no
+		// memory of the caller
+		e.root().Assumed["A-ANTLR-RT"] = true
+		res := f.Signature.Results()
+		if res.Len() == 1 {
+			if p, ok := res.At(0).Type().Underlying().(*types.Pointer); ok {
+				return e.antlrObject(p.Elem(), 0)
+			}
+		}
+		return e.freshResults(res, f.Name())
+	}
 	if antlrStatic(f) {
 		e.root().Assumed["A-ANTLR-RT"] = true
 		recv := e.toTerm(args[0], c.Args[0].Type())
@@ -410,6 +458,11 @@ func (e *Exec) contractCall(f *ssa.Function, ct *FuncContract, c *ssa.CallCommon
 	for _, en := range ct.Ensures {
 		t := e.evalContractBool(en.Expr, post, "ensures of "+ct.Name)
 		e.assume(Implies(e.guard(), t))
+	}
+	for i, en := range ct.Assumes {
+		t := e.evalContractBool(en.Expr, post, "assumes of "+ct.Name)
+		e.assume(Implies(e.guard(), t))
+		e.root().Assumed["assumed postcondition "+FuncKey(f)+"#"+labelOr(en.Label, i)+": "+en.Src] = true
 	}
 	if ct.Flags["trusted"] {
 		e.root().Assumed["trusted contract of "+FuncKey(f)] = true
